@@ -299,10 +299,14 @@ func checkC04(c *Ctx) {
 		valueFidelity(c, p, m, mr, "R04.8")
 		escaperNoLoss(c, p, "R04.8")
 		messageIdentity(c, p, "R05.10")
+		messageEmittedAsIs(c, p, m, mr, "R05.10")
 		c08Stores(c, p, m)
 		c04Brackets(c, p, m, mr)
 		c04Members(c, p, m, mr)
 		newlineRule(c, p, mr, "R04.5", map[string]string{"PrintCtx.End": "the record terminator of End(true)", "PrintCtx.EndArray": "EndArray(newline) for user marshallers", "Entry.printImpl": "blank-line shortcut"})
+		// the same with the testing/debug-only branches included: in JSON mode the post-record error dump is skipped, so
+		// "one line" holds under go test and a debugger too
+		newlineRule(c, p, NewModeReach(p, m, jsonMode, sessionEntries(p), false), "R04.5", map[string]string{"PrintCtx.End": "the record terminator of End(true)", "PrintCtx.EndArray": "EndArray(newline) for user marshallers", "Entry.printImpl": "blank-line shortcut"})
 		fieldOrder(c, p, m, jsonMode, "R04.6", []string{"Begin", "printTimestamp", "printLoggerName", "printSeverity", "printMsg", "serializeAttrs", "printPC", "printRestLinesOfMsg", "End", "Bytes", "printOut"}, map[string]bool{"printPC": true, "printRestLinesOfMsg": true})
 		c04Keys(c, p, m)
 		c09Pooled(c, p, m, "R04.7", []Mode{jsonMode})
